@@ -239,6 +239,9 @@ def _str_escape(s: str) -> str:
             c = r'\v'
         elif c == "\\": 
             c = r'\\'
+        elif c == '\0':
+            # docutils uses null bytes internally and strips them from the text.
+            c = r'\x00'
         return c
 
     # Escape it
